@@ -13,11 +13,13 @@ from ahbicht.expressions.format_constraint_expression_evaluation import evaluate
 from ahbicht.models.condition_nodes import EvaluatedFormatConstraint
 
 
-def fresh_table(fa, message_style):
-    """every unfulfilled single constraint carries a message, fulfilled ones carry none (what shipped evaluators produce)"""
+def fresh_table(fa, message_style, texts_on_fulfilled=False):
+    """every unfulfilled single constraint carries a message; fulfilled ones carry none (what the shipped evaluators produce) or -
+    texts_on_fulfilled - a remark of their own (the model allows it: a user evaluator saying "check digit matches", a result produced by
+    another system that always fills the field)"""
     out = {}
     for k, v in fa.items():
-        msg = None
+        msg = f"OK: {k} looks fine" if texts_on_fulfilled and int(k) % 2 == 1 else None
         if not v:
             msg = {"plain": f"E{k}", "unicode": f"Formatprüfung {k} »fehlgeschlagen« ✗", "quotes": f"'{k}' \"oder\" 'und'"}[message_style]
         out[k] = EvaluatedFormatConstraint(format_constraint_fulfilled=v, error_message=msg)
@@ -66,6 +68,15 @@ async def check_expression(ctx, case):
             ctx.violation("message-presence", f"{s!r} under {fa}: fulfilled={expected} but error_message={res.error_message!r} (a message must be present iff unfulfilled)", case=wcase)
             return
         ctx.count("unfulfilled_results" if not expected else "fulfilled_results")
+        # the statement's proviso is about UNFULFILLED single constraints only: fulfilled ones may carry a text of their own
+        ev2 = capture(evaluate_format_constraint_tree, tree, fresh_table(fa, "plain", texts_on_fulfilled=True))
+        ctx.count("evaluations_with_texts_on_fulfilled_constraints")
+        if ev2[0] != "ok":
+            ctx.violation(f"fc-evaluation-raises-{type(ev2[1]).__name__}", f"evaluate_format_constraint_tree({s!r}, {fa}, fulfilled constraints carrying a text) {describe(ev2)[:200]}", case=wcase)
+            return
+        if ev2[1].format_constraint_fulfilled is not expected or (ev2[1].error_message is not None) != (not expected):
+            ctx.violation("message-presence" if ev2[1].format_constraint_fulfilled is expected else "boolean-value", f"{s!r} under {fa}, fulfilled single constraints with odd keys carry the text 'OK: <key> looks fine': fulfilled={ev2[1].format_constraint_fulfilled!r} (Boolean value {expected}), error_message={ev2[1].error_message!r} (a message must be present iff the result is unfulfilled)", case=wcase)
+            return
     # the async entry point through yielding evaluators; messages explicit or inserted by the base class
     for fa in (fas if len(fas) <= 4 else rng.sample(fas, 4)):
         ctx.evaluation()
